@@ -657,7 +657,12 @@ func harnesses(r *fw.Run) []fw.HarnessSpec {
 					return
 				}
 			} else {
-				_, err := w.RawSendV2(context.Background(), s.seqno, until, raw, init, 0)
+				var err error
+				if len(s.msgs)%2 == 1 {
+					err = w.RawSend(context.Background(), s.seqno, until, raw, init) // the older entry point, same contract
+				} else {
+					_, err = w.RawSendV2(context.Background(), s.seqno, until, raw, init, 0)
+				}
 				if over {
 					if err == nil || len(bc.payloads) != 0 {
 						c.Fail("over-limit-send-accepted:"+s.ver.ToString(), "RawSendV2 with %d messages (limit %d) was not refused (err=%v, payloads sent=%d)", len(s.msgs), maxMsgs(s.ver), err, len(bc.payloads))
